@@ -173,10 +173,17 @@ func namedOf(t types.Type) *types.Named {
 
 // embAddr is the address of by-value struct field idx inside object obj.
 func embAddr(owner *types.Named, idx int, obj *Term) *Term {
-	if idx == 0 {
-		return obj // a struct and its first field share an address
+	// The embedded value's own cells live in arrays named after its own type (or, for
+	// sync.Map, after the owning field), so the owner's address can serve as its address
+	// unless an earlier field of the same struct has the identical type.
+	s := structOf(owner)
+	ft := s.Field(idx).Type()
+	for j := 0; j < idx; j++ {
+		if types.Identical(s.Field(j).Type(), ft) {
+			return App("emb|"+typeStr(owner)+"|"+itoa(idx), IntS, obj)
+		}
 	}
-	return App("emb|"+typeStr(owner)+"|"+itoa(idx), IntS, obj)
+	return obj
 }
 
 func structOf(t types.Type) *types.Struct {
